@@ -1893,7 +1893,7 @@ fn main() {
             continue;
         }
         let hseed = seed.wrapping_mul(1_000_003).wrapping_add(h);
-        if family == "set" || family == "parset" || family == "serset" {
+        if family == "set" || family == "parset" || family == "serset" || family == "zst" {
             // HashSet histories have their own driver (set.rs); same trace format
             let mut sx = set::SCtx {
                 sets: (0..3).map(|_| None).collect(),
@@ -1915,11 +1915,19 @@ fn main() {
             let probe: griddle::HashSet<K, HB> = griddle::HashSet::with_hasher(HB { kind: 0, id: 0 });
             let r = probe.verif_state().r;
             drop(probe);
-            writeln!(sx.out, "H {} {} 0 {} {}", r, debug as u8, std::mem::size_of::<(K, ())>(), sx.hist_id).unwrap();
+            if family == "zst" {
+                writeln!(sx.out, "H {} {} 1 0 {}", r, debug as u8, sx.hist_id).unwrap();
+            } else {
+                writeln!(sx.out, "H {} {} 0 {} {}", r, debug as u8, std::mem::size_of::<(K, ())>(), sx.hist_id).unwrap();
+            }
             if let Some(ref p) = progressp {
                 let _ = std::fs::write(p, format!("{}\n", sx.hist_id));
             }
-            set::history(&mut sx, maxops);
+            if family == "zst" {
+                set::zst_history(&mut sx, maxops);
+            } else {
+                set::history(&mut sx, maxops);
+            }
             for (p, m) in PEND.with(|p| std::mem::take(&mut *p.borrow_mut())) {
                 writeln!(sx.out, "V {} {}", p, m).unwrap();
                 all_viol.push((p, m));
